@@ -70,8 +70,8 @@ ASSUMPTIONS = [
 REQUIRED = {"precedence.attribute": {"quick": 20000, "thorough": 1500000}, "bool.file_x_cmdline_pairs": {"quick": 200, "thorough": 200},
             "paths.relative_to_config_file": {"quick": 150, "thorough": 8000}, "list.order": {"quick": 400, "thorough": 20000},
             "userdata.define_parsing": {"quick": 2000, "thorough": 100000}, "userdata.cmdline_overrides_file": {"quick": 300, "thorough": 15000},
-            "userdata.getters": {"quick": 1500, "thorough": 60000}, "couplings.documented": {"quick": 100, "thorough": 4000}}
-REQUIRED_SEEN = {"config_file_kind": ["behave.ini", ".behaverc", "setup.cfg", "tox.ini", "pyproject.toml"],
+            "userdata.getters": {"quick": 1500, "thorough": 60000}, "userdata.namespace_view": {"quick": 500, "thorough": 20000}, "couplings.documented": {"quick": 100, "thorough": 4000}}
+REQUIRED_SEEN = {"namespace_name_shape": ["name_starts_with_namespace_text"], "config_file_kind": ["behave.ini", ".behaverc", "setup.cfg", "tox.ini", "pyproject.toml"],
                  "config_file_place": ["cwd", "home"], "source_deciding": ["cmdline", "file", "default"]}
 EXHAUSTIVE = True
 EXHAUSTIVE_SCOPE = "all (file value in {absent,true,false}) x (command-line flag in {absent,positive,negative}) pairs for every boolean option"
@@ -489,6 +489,46 @@ def userdata_cases(mon, sc, rng, n):
         want.update(defines)
         got = dict(config.userdata)
         mon.check("userdata.cmdline_overrides_given", got == want, lambda: dict(case=case, got=got, want=want))
+    # ---- the namespace view on user data (UserDataNamespace("app", config.userdata)): "{namespace}.{name}" ----------------
+    from behave.userdata import UserDataNamespace
+    for i in range(max(10, n // 10)):
+        sc.clear_files()
+        ns = rng.choice(["app", "db", "my.scope", "log"])
+        short = rng.choice([["timeout", "%s_timeout" % ns.replace(".", "_"), "%sname" % ns.split(".")[0], "%sly" % ns, "retries"],
+                            ["name", "%s" % ns, "%s.inner" % ns, "x"]])
+        universe = ["%s.%s" % (ns, k) for k in short] + list(short) + ["other.%s" % short[0]]
+        fdata = {k: rng.choice(["5", "7", "12"]) for k in rng.sample(universe, rng.randint(1, 4))}
+        fname = rng.choice(["behave.ini", "setup.cfg"])
+        with open(os.path.join(sc.cwd, fname), "w", encoding="utf-8") as fh:
+            fh.write(ini_text({}, fdata))
+        defines = {k: rng.choice(["21", "34"]) for k in rng.sample(universe, rng.randint(0, 3))}
+        args = []
+        for k, v in defines.items():
+            args.extend(["-D", "%s=%s" % (k, v)])
+        config, err = make_config(args)
+        case = {"namespace": ns, "file": fname, "file_userdata": fdata, "args": args}
+        mon.case(("userdata-namespace", ns, tuple(sorted(fdata.items())), tuple(args)), True)
+        if config is None:
+            mon.check("userdata.namespace_view", False, dict(case=case, error=err))
+            continue
+        merged = dict(fdata)
+        merged.update(defines)
+        view = UserDataNamespace(ns, config.userdata)
+        for k in short:
+            full = "%s.%s" % (ns, k)
+            want = (full in merged, merged.get(full, "dflt"), int(merged[full]) if full in merged else -1)
+            try:
+                got = (k in view, view.get(k, "dflt"), view.getint(k, -1))
+            except Exception as ex:
+                got = repr(ex)
+            mon.check("userdata.namespace_view", got == want,
+                      lambda: dict(case=case, name=k, scoped_name=full, got=got, want=want, userdata=dict(config.userdata)))
+            if k.startswith(ns.split(".")[0]):
+                mon.seen("namespace_name_shape", "name_starts_with_namespace_text")
+        want_keys = sorted(k[len(ns) + 1:] for k in merged if k.startswith(ns + "."))
+        got_keys = sorted(view.keys())
+        mon.check("userdata.namespace_view", got_keys == want_keys and len(view) == len(want_keys),
+                  lambda: dict(case=case, got_keys=got_keys, want_keys=want_keys, length=len(view)))
     # ---- typed getters --------------------------------------------------------------------------------------
     for i in range(n):
         raw = rng.choice(["42", "-7", "3.5", "abc", "", "true", "Yes", "off", "0", "1", "2", " 12 ", "1e3", "no ", "maybe"])
